@@ -1,8 +1,66 @@
-From Coq Require Import List Arith.
+(* C02 — dispatch order: priority then FIFO per pass; handler priority; stop().
+   Only statements here; proofs live in Proofs/DispatchOrderP.v, the model in Model/DispatchOrder.v.
+
+   Reading guide.  K, leb: any priority type with a boolean total preorder (ints, negative, non-NaN
+   floats, bools).  hs_of: any assignment of handlers (id, priority, body) to event names.  prog: any
+   main program; bodies and prog are lists of AFire name priority / AFlush / AStop, so fires and
+   recursive flushes from inside handlers nest to any depth.  [reach K leb hs_of prog s]: s is a state
+   the machine reaches from [init prog] (any number of steps, also of non-terminating programs).
+   [trace s] is the chronological log: TFire x (x carries priority [ikey], id [ictr] = position in the
+   global fire order, name), TSnap (a pass begins: FIFO moved to the heap), TDisp x (x popped and given
+   to the dispatcher), TInv e h d (handler h runs for event e at nesting depth d), TStop e h, TRet e h,
+   TDone e (dispatcher's loop for e over), TFlushB/TFlushE.
+   [prec K leb a b] := priority a < priority b, or equal priorities and a fired before b.
+   [pending_fires t] := the entries fired in t after t's last TSnap (= what the next pass takes). *)
+From Coq Require Import List Arith ZArith Lia Permutation Sorted.
 From Circ Require Import Model.DispatchOrder Proofs.DispatchOrderP.
 Import ListNotations.
 
-Theorem C02_fire_only_queues : forall K leb hs_of (s : state K) ctx n p acts k,
+
+(* One pass dispatches exactly the entries queued when it began, in ascending priority value and, for
+   equal priority, in fire order: at any moment the dispatches since the last TSnap are a prefix of the
+   prec-sorted permutation of the snapshot; [batch s] entries remain (none when the pass is over). *)
+Theorem C02_pass : forall (K : Type) (leb : K -> K -> bool) (hs_of : nat -> list (handler K)), 
+  Total K leb -> Trans K leb -> forall prog s t1 t2, reach K leb hs_of prog s ->
+  trace s = t1 ++ TSnap :: t2 -> nosnap K t2 ->
+  exists rest, length rest = batch s /\
+    Permutation (pending_fires t1) (disps t2 ++ rest) /\ StronglySorted (prec K leb) (disps t2 ++ rest).
+Proof. exact pass_sorted. Qed.
+Print Assumptions C02_pass.
+
+(* ids are the positions in the global fire order, so "ictr a < ictr b" in prec means "a fired first" *)
+Theorem C02_fire_order : forall (K : Type) (leb : K -> K -> bool) (hs_of : nat -> list (handler K)), 
+  forall prog s, reach K leb hs_of prog s ->
+  map ictr (fires (trace s)) = seq 0 (counter s).
+Proof. exact fire_order. Qed.
+Print Assumptions C02_fire_order.
+
+(* An event fired after a pass began (from a handler at any nesting depth, or from outside) is never
+   dispatched before an entry that was queued when that pass began — whatever recursive flushes happen
+   in between. *)
+Theorem C02_no_overtake : forall (K : Type) (leb : K -> K -> bool) (hs_of : nat -> list (handler K)), 
+  forall prog s t1 t2 t3 x x', reach K leb hs_of prog s ->
+  trace s = t1 ++ TSnap :: t2 ++ TDisp x :: t3 -> In (TFire x') t2 -> ictr x' = ictr x ->
+  forall y, In y (pending_fires t1) -> In (TDisp y) t2.
+Proof. exact no_overtake. Qed.
+Print Assumptions C02_no_overtake.
+
+(* no event is dispatched twice; heappop never hits an empty heap (the "decrement first" counter
+   always equals the heap size) *)
+Theorem C02_dispatch_once : forall (K : Type) (leb : K -> K -> bool) (hs_of : nat -> list (handler K)), 
+  forall prog s, reach K leb hs_of prog s ->
+  NoDup (map ictr (disps (trace s))).
+Proof. exact disp_once. Qed.
+Print Assumptions C02_dispatch_once.
+Theorem C02_no_crash : forall (K : Type) (leb : K -> K -> bool) (hs_of : nat -> list (handler K)), 
+  forall prog s, reach K leb hs_of prog s ->
+  crashed s = false /\ batch s = length (heap s).
+Proof. exact no_crash. Qed.
+Print Assumptions C02_no_crash.
+
+(* fire() never runs a handler: the step only appends to the FIFO and logs TFire *)
+Theorem C02_fire_only_queues : forall (K : Type) (leb : K -> K -> bool) (hs_of : nat -> list (handler K)), 
+  forall (s : state K) ctx n p acts k,
   stack s = FBody ctx (AFire n p :: acts) :: k ->
   exists s', step K leb hs_of s = Some s' /\
     let x := Build_item p (counter s) n in
@@ -10,3 +68,96 @@ Theorem C02_fire_only_queues : forall K leb hs_of (s : state K) ctx n p acts k,
     stack s' = FBody ctx acts :: k /\ trace s' = trace s ++ [TFire x].
 Proof. exact fire_only_queues. Qed.
 Print Assumptions C02_fire_only_queues.
+
+(* handlers nest only through a handler's own flush(): nesting depth <= number of active
+   dispatchEvents loops, each of which was entered by an AFlush action *)
+Theorem C02_no_reentrancy : forall (K : Type) (leb : K -> K -> bool) (hs_of : nat -> list (handler K)), 
+  forall prog s, reach K leb hs_of prog s ->
+  depth (stack s) <= loops K (stack s).
+Proof. exact depth_le_loops. Qed.
+Print Assumptions C02_no_reentrancy.
+
+(* ... and those loops are exactly the flush() calls entered (TFlushB) and not yet returned (TFlushE) *)
+Theorem C02_depth_le_active_flushes : forall (K : Type) (leb : K -> K -> bool) (hs_of : nat -> list (handler K)),
+  forall prog s, reach K leb hs_of prog s -> depth (stack s) + nE K (trace s) <= nB K (trace s).
+Proof. exact depth_le_active_flushes. Qed.
+Print Assumptions C02_depth_le_active_flushes.
+
+(* handlers of one event: the invoked ones are, at any time, a prefix of the list sorted by
+   descending priority ... *)
+Theorem C02_handlers_prefix : forall (K : Type) (leb : K -> K -> bool) (hs_of : nat -> list (handler K)), 
+  forall prog s x, reach K leb hs_of prog s -> In x (disps (trace s)) ->
+  exists rem, invs (ictr x) (trace s) ++ rem = map hid (sort_desc K leb (hs_of (iname x))).
+Proof. exact handlers_prefix. Qed.
+Print Assumptions C02_handlers_prefix.
+Theorem C02_handlers_sorted : forall (K : Type) (leb : K -> K -> bool), 
+  Total K leb -> Trans K leb -> forall l,
+  Permutation (sort_desc K leb l) l /\
+  StronglySorted (fun a b => leb (hprio b) (hprio a) = true) (sort_desc K leb l).
+Proof. exact handlers_sorted. Qed.
+Print Assumptions C02_handlers_sorted.
+(* ... all of them if nobody called stop() ... *)
+Theorem C02_handlers_complete : forall (K : Type) (leb : K -> K -> bool) (hs_of : nat -> list (handler K)), 
+  forall prog s x, reach K leb hs_of prog s -> In x (disps (trace s)) ->
+  In (TDone (ictr x)) (trace s) -> (forall h, ~ In (TStop (ictr x) h) (trace s)) ->
+  invs (ictr x) (trace s) = map hid (sort_desc K leb (hs_of (iname x))).
+Proof. exact handlers_complete. Qed.
+Print Assumptions C02_handlers_complete.
+(* ... and after stop() no further handler runs for that event; the stopping handler is an invoked one *)
+Theorem C02_stop : forall (K : Type) (leb : K -> K -> bool) (hs_of : nat -> list (handler K)), 
+  forall prog s u e h v, reach K leb hs_of prog s ->
+  trace s = u ++ TStop e h :: v -> forall h' d, ~ In (TInv e h' d) v.
+Proof. exact no_invoke_after_stop. Qed.
+Print Assumptions C02_stop.
+Theorem C02_stopper_invoked : forall (K : Type) (leb : K -> K -> bool) (hs_of : nat -> list (handler K)), 
+  forall prog s e h, reach K leb hs_of prog s ->
+  In (TStop e h) (trace s) -> In h (invs e (trace s)).
+Proof. exact stopper_was_invoked. Qed.
+Print Assumptions C02_stopper_invoked.
+
+(* what the executable [run] computes is reachable, so all of the above applies to it *)
+Theorem C02_run_reach : forall (K : Type) (leb : K -> K -> bool) (hs_of : nat -> list (handler K)), 
+  forall prog n, reach K leb hs_of prog (run K leb hs_of n (init prog)).
+Proof. exact run_init_reach. Qed.
+Print Assumptions C02_run_reach.
+
+
+(* ---- non-vacuity *)
+Example C02_ex_Zleb : Total Z Z.leb /\ Trans Z Z.leb.
+Proof. split; red; intros; rewrite ?Z.leb_le in *; lia. Qed.
+
+(* event 0 (priority 0) and event 1 (priority 1) are queued; the priority-5 handler of event 0 fires
+   event 2 with priority -5 during the pass; the priority-3 handler stops event 0, so its priority-0
+   handler never runs; event 2 is dispatched in the next pass although its priority value is the smallest *)
+Definition ex_tbl : list (nat * list handlerZ) :=
+  [(0, [Build_handler 0 0%Z []; Build_handler 1 3%Z [AStop]; Build_handler 2 5%Z [AFire 1 (-5)%Z]]);
+   (1, [Build_handler 3 0%Z []])].
+Definition ex_prog : list (act Z) := [AFire 0 0%Z; AFire 1 1%Z; AFlush; AFlush].
+Definition e0 : item Z := Build_item 0%Z 0 0.
+Definition e1 : item Z := Build_item 1%Z 1 1.
+Definition e2 : item Z := Build_item (-5)%Z 2 1.
+Example C02_ex_trace :
+  trace (runZ ex_tbl 100 ex_prog) =
+    [TFire e0; TFire e1; TFlushB] ++ TSnap ::
+    [TDisp e0; TInv 0 2 1; TFire e2; TRet 0 2; TInv 0 1 1; TStop 0 1; TRet 0 1; TDone 0;
+     TDisp e1; TInv 1 3 1; TRet 1 3; TDone 1; TFlushE; TFlushB; TSnap] ++ TDisp e2 ::
+    [TInv 2 3 1; TRet 2 3; TDone 2; TFlushE].
+Proof. vm_compute. reflexivity. Qed.
+Example C02_ex_hyps :
+  pending_fires [TFire e0; TFire e1; TFlushB] = [e0; e1] /\
+  nosnap Z [TDisp e0; TInv 0 2 1; TFire e2; TRet 0 2] /\
+  stack (runZ ex_tbl 100 ex_prog) = [] /\ crashed (runZ ex_tbl 100 ex_prog) = false.
+Proof. vm_compute. auto. Qed.
+(* a nested flush: the handler of event 0 fires event 1 and flushes twice; the first flush finishes the
+   running pass (nothing left), the second one dispatches event 1 at depth 2 *)
+Example C02_ex_nested :
+  trace (runZ [(0, [Build_handler 0 0%Z [AFire 1 0%Z; AFlush; AFlush]]); (1, [Build_handler 1 0%Z []])]
+              100 [AFire 0 0%Z; AFire 0 0%Z; AFlush]) =
+    [TFire (Build_item 0%Z 0 0); TFire (Build_item 0%Z 1 0); TFlushB; TSnap;
+     TDisp (Build_item 0%Z 0 0); TInv 0 0 1; TFire (Build_item 0%Z 2 1); TFlushB;
+       TDisp (Build_item 0%Z 1 0); TInv 1 0 2; TFire (Build_item 0%Z 3 1); TFlushB; TSnap;
+         TDisp (Build_item 0%Z 2 1); TInv 2 1 3; TRet 2 1; TDone 2;
+         TDisp (Build_item 0%Z 3 1); TInv 3 1 3; TRet 3 1; TDone 3; TFlushE;
+       TFlushB; TSnap; TFlushE; TRet 1 0; TDone 1; TFlushE;
+     TFlushB; TSnap; TFlushE; TRet 0 0; TDone 0; TFlushE].
+Proof. vm_compute. reflexivity. Qed.
